@@ -132,11 +132,15 @@ def _coq_fun(vals, default, fmt=str):
     return "fun o => match o with " + " ".join("| %d => %s" % (i, fmt(v)) for i, v in enumerate(vals)) + " | _ => %s end" % default
 
 
-def translate(repo, outdir):
+def pin_check(repo):
     from translate import fingerprint
-    from vlib import implcall
 
     fingerprint.check(repo, ANCHORS, "C01")
+
+
+def translate(repo, outdir):
+    from vlib import implcall
+
     f = implcall.call("specs.c01", "facts")
     ents = [f[n] for n in OPS]
     zz = lambda v: "(%d)%%Z" % v
@@ -220,6 +224,25 @@ def gen_txt(rng, d, tc=False):
         # type_coerce(<int expr>, String): rendered exactly like the int expression
         return ["tc", gen_int(rng, d - 1)]
     return Bn("concat_op", gen_txt(rng, d - 1, tc), gen_txt(rng, d - 1, tc))
+
+
+BOOL_ATOMS = [20, 21]  # Boolean-typed columns: rendered through AsBoolean (p = 1 / NOT p): oracle-only family
+
+
+def gen_boolcol(rng, d):
+    """boolean expressions over Boolean-typed columns, mixed with comparisons/arithmetic around them"""
+    if d <= 0 or rng.random() < 0.2:
+        return A(rng.choice(BOOL_ATOMS))
+    k = rng.random()
+    if k < 0.3:
+        return [4, gen_boolcol(rng, d - 1)]
+    if k < 0.5:
+        return [rng.choice([2, 3]), gen_boolcol(rng, d - 1), gen_boolcol(rng, d - 1)]
+    if k < 0.8:
+        return Bn(rng.choice(CMP + ["is_", "is_not"]), gen_boolcol(rng, d - 1), gen_boolcol(rng, d - 1))
+    if k < 0.9:
+        return Bn(rng.choice(CMP), Bn("add", gen_boolcol(rng, d - 1), A(rng.choice(INT_ATOMS))), A(rng.choice(INT_ATOMS)))
+    return Bn(rng.choice(CMP), gen_int(rng, d - 1), gen_int(rng, d - 1))
 
 
 def gen_bool(rng, d, tc=False):
@@ -321,6 +344,9 @@ def gen_cases(rng, tier):
             t = gen_bool(rng, d)
             kind = "bool"
         cases.append({"in": strip_tc(t), "kind": kind, "src": t, "strict_types": True})
+    for i in range(n // 4):
+        t = gen_boolcol(rng, rng.randint(1, 4))
+        cases.append({"in": t, "kind": "boolean-columns", "src": t, "strict_types": False, "model": False})
     return cases
 
 
@@ -367,7 +393,12 @@ def _atom(n):
     if n == NULL_ATOM:
         return null()
     if n not in _cols:
-        _cols[n] = column("c%d" % n, Integer) if n < 10 else column("s%d" % n, String)
+        if n >= 20:
+            from sqlalchemy import Boolean
+
+            _cols[n] = column("b%d" % n, Boolean)
+        else:
+            _cols[n] = column("c%d" % n, Integer) if n < 10 else column("s%d" % n, String)
     return _cols[n]
 
 
@@ -455,6 +486,9 @@ def _compile(e, name):
 
 def impl(c):
     e = build(c["src"])
+    if c.get("model", True) is False:
+        _compile(e, "sqlite")
+        return []
     s1 = _compile(e, "sqlite")
     t1 = tokenize(s1)
     if c.get("strict_types", True):
@@ -470,7 +504,9 @@ def full_sql(t):
     if k == "tc":
         return full_sql(t[1])
     if k == 0:
-        return "NULL" if t[1] == NULL_ATOM else ("c%d" % t[1] if t[1] < 10 else "s%d" % t[1])
+        if t[1] == NULL_ATOM:
+            return "NULL"
+        return "c%d" % t[1] if t[1] < 10 else ("s%d" % t[1] if t[1] < 20 else "b%d" % t[1])
     if k == 1:
         return "(%s %s %s)" % (full_sql(t[2]), SPELL[OPS[t[1]]], full_sql(t[3]))
     if k in (2, 3):
@@ -490,7 +526,7 @@ def _conn():
         import sqlite3
 
         _db = sqlite3.connect(":memory:")
-        _db.execute("create table t (c0, c1, c2, c3, s10, s11, s12, s13)")
+        _db.execute("create table t (c0, c1, c2, c3, s10, s11, s12, s13, b20, b21)")
         ints = [None, -7, -2, -1, 0, 1, 2, 3, 5]
         txts = [None, "", "a", "ab", "%", "1", "-2", "A"]
         import random
@@ -498,8 +534,8 @@ def _conn():
         r = random.Random(12345)
         rows = []
         for _ in range(14):
-            rows.append([r.choice(ints) for _ in range(4)] + [r.choice(txts) for _ in range(4)])
-        _db.executemany("insert into t values (?,?,?,?,?,?,?,?)", rows)
+            rows.append([r.choice(ints) for _ in range(4)] + [r.choice(txts) for _ in range(4)] + [r.choice([None, 0, 1, 0, 1]) for _ in range(2)])
+        _db.executemany("insert into t values (?,?,?,?,?,?,?,?,?,?)", rows)
     return _db
 
 
